@@ -78,6 +78,7 @@ structure PrimOK (Inv : St → Prop) : Prop where
   declArrInit : ∀ c ty x dims vs, Preserves Inv (declArrInit c ty x dims vs)
   declDefault : ∀ c ty x dims, Preserves Inv (declDefault c ty x dims)
   declStructVar : ∀ sd x, Preserves Inv (declStructVar sd x)
+  declStructInitVar : ∀ c sd x vs, Preserves Inv (declStructInitVar c sd x vs)
   enterCall : ∀ {α : Type} (fn : Func) (args : List Int) (m : M α),
       Preserves Inv m → Preserves Inv (enterCall fn args m)
 
@@ -139,6 +140,7 @@ theorem allPres_succ (hp : PrimOK Inv) (p : Prog) (fuel : Nat) (ih : AllPres Inv
   have hda := hp.declArrInit
   have hdd := hp.declDefault
   have hds := hp.declStructVar
+  have hdsi := hp.declStructInitVar
   constructor
   · intro e
     unfold evalE
@@ -169,7 +171,7 @@ theorem allPres_succ (hp : PrimOK Inv) (p : Prog) (fuel : Nat) (ih : AllPres Inv
     cases st <;> simp only <;> repeat (first
       | exact hE _ | exact hEs _ | exact hLV _ | exact hS _ | exact hSs _ | exact hL _ _ _ | exact hP _ _
       | exact hPI _ | exact hwr _ _ | exact hdi _ _ _ _ _ | exact hda _ _ _ _ _ | exact hdd _ _ _ _
-      | exact hds _ _ | exact hemit _ | pres_step)
+      | exact hds _ _ | exact hdsi _ _ _ _ | exact hemit _ | pres_step)
   · intro ss
     cases ss with
     | nil => unfold execSs; exact pres_pure _
